@@ -51,6 +51,7 @@ type Obligation struct {
 }
 
 type FnCtx struct {
+	keepSliceOffsets bool // ... or about where its slice result lies (sliceoff)
 	keepStrOffsets bool // the contract of the call being translated speaks about where its string result lies
 	e        *Engine
 	fn       *ssa.Function
